@@ -1023,6 +1023,130 @@ Proof.
   apply rule_tail; [apply tags_of_cases | apply json_roundtrip].
 Qed.
 
+(* ================================================================== the repaired design, generically:
+   ANY case mapping [up] (Python's full Unicode str.upper included), ANY description cleaning [cleanf],
+   ANY word splitter [wordsf], ANY merchant-name function [namef] yielding a loadable header.
+   What the property needs from them is one fact about the case mapping (H_first) — nothing about the
+   regexes, prefixes or whitespace classes of clean_description. *)
+Section Generic.
+  Variable up : string -> string.
+  Variable wordsf : string -> list string.
+  Variable cleanf : string -> string.
+  Variable namef : string -> string.
+  Variable take_n : nat.
+
+  Definition contains_g (needle text : string) : bool := substrb (up needle) (up text).     (* _fn_contains *)
+
+  Fixpoint try_words_g (n : nat) (ws : list string) (d : string) : option string :=
+    match n with
+    | O => None
+    | S k => let cand := sconcat " " (firstn n ws) in
+             if contains_g cand d then Some cand else try_words_g k ws d
+    end.
+  Definition needle_g (d : string) : string :=
+    let ws := firstn take_n (wordsf (cleanf d)) in
+    match try_words_g (length ws) ws d with
+    | Some n => n
+    | None => match wordsf (up d) with w :: _ => w | [] => "" end
+    end.
+
+  (* the first word of an upper-cased text, upper-cased again, occurs in that upper-cased text; and up "" = "" *)
+  Hypothesis H_first : forall s w t, wordsf (up s) = w :: t -> substr (up w) (up s).
+  Hypothesis H_empty : up "" = "".
+  Hypothesis H_name : forall d, nm_ok (namef d) = true.
+
+  Lemma try_words_g_sound n ws d c : try_words_g n ws d = Some c -> contains_g c d = true.
+  Proof.
+    induction n as [|k IH]; cbn [try_words_g]; [discriminate|].
+    destruct (contains_g (sconcat " " (firstn (S k) ws)) d) eqn:E; [|exact IH].
+    intros H; inversion H; subst. exact E.
+  Qed.
+
+  Theorem needle_generic d : contains_g (needle_g d) d = true.
+  Proof.
+    unfold needle_g. cbv zeta.
+    destruct (try_words_g _ _ d) as [c|] eqn:E; [eapply try_words_g_sound; eauto|].
+    destruct (wordsf (up d)) as [|w t] eqn:W.
+    - unfold contains_g. rewrite H_empty. now destruct (up d).
+    - unfold contains_g. apply substrb_complete. eapply H_first; eauto.
+  Qed.
+
+  Theorem rule_generic d neg :
+    parse_merchants (rule_text Fixed (namef d) (needle_g d) (tags_of neg)) = Loaded [the_rule (namef d) (needle_g d)]
+    /\ contains_g (needle_g d) d = true.
+  Proof.
+    split; [|apply needle_generic]. unfold rule_text, quote, quote_fixed.
+    apply load_rule_lines; [apply H_name | apply json_no_lf | apply tags_of_cases | apply json_roundtrip].
+  Qed.
+End Generic.
+
+(* the concrete model is the instance up := ASCII upper, wordsf := words, cleanf := clean *)
+Definition clean_fn (d : string) : string :=
+  strip (strip_prefixes false pattern_prefixes (resub m_storeno (clean3 d))).
+Lemma suggest_needle_is_instance d : suggest_needle d = Some (needle_g upper words clean_fn pattern_take d).
+Proof. reflexivity. Qed.
+Lemma ascii_first s w t : words (upper s) = w :: t -> substr (upper w) (upper s).
+Proof. intros H. apply words_hd_substr in H. apply substr_upper in H. now rewrite upper_idem in H. Qed.
+
+(* the needle itself (not only its upper-casing) occurs in the upper-cased description *)
+Definition not_lower (c : ascii) : bool := negb (is_lower_ascii c).
+Lemma upper_not_lower s : allb not_lower (upper s) = true.
+Proof. unfold upper. induction s as [|c r IH]; [reflexivity|]. cbn [smap allb]. rewrite IH, andb_true_r. clear. all_chars c. Qed.
+Lemma upper_fix s : allb not_lower s = true -> upper s = s.
+Proof.
+  unfold upper. induction s as [|c r IH]; [reflexivity|]. cbn [allb smap]. intros H. apply andb_true_iff in H as [H1 H2].
+  rewrite (IH H2). f_equal. clear -H1. revert H1. all_chars c.
+Qed.
+Lemma clean_form_allb p u : allb p u = true ->
+  allb p (strip (strip_prefixes false pattern_prefixes (resub m_storeno (resub m_zip (resub (m_state false) (resub m_storeid u)))))) = true.
+Proof.
+  intros H. unfold strip, lstrip, resub. apply allb_rstrip, allb_drop, allb_strip_prefixes. repeat apply allb_sub_go. exact H.
+Qed.
+Lemma sconcat_sp_allb p ws : p " "%char = true -> Forall (fun w => allb p w = true) ws -> allb p (sconcat " " ws) = true.
+Proof.
+  intros Hs. induction 1 as [|w t Hw Ht IH]; [reflexivity|]. destruct t as [|w2 t]; cbn [sconcat]; [exact Hw|].
+  rewrite !allb_app, Hw. cbn [allb]. rewrite Hs. exact IH.
+Qed.
+Lemma try_words_allb p n ws d c : p " "%char = true -> Forall (fun w => allb p w = true) ws ->
+  try_words n ws d = Some c -> allb p c = true.
+Proof.
+  intros Hs Hw. induction n as [|k IH]; cbn [try_words]; [discriminate|].
+  destruct (ci_contains _ d); [|exact IH]. intros H. clear IH. injection H as <-.
+  apply sconcat_sp_allb; [exact Hs | now apply (firstn_Forall _ (S k))].
+Qed.
+Lemma needle_not_lower d n : suggest_needle d = Some n -> allb not_lower n = true.
+Proof.
+  unfold suggest_needle. rewrite clean_eq. unfold clean3. intros H.
+  pose proof (clean_form_allb not_lower (upper d) (upper_not_lower d)) as C. revert H C.
+  generalize (strip (strip_prefixes false pattern_prefixes (resub m_storeno (resub m_zip (resub (m_state false) (resub m_storeid (upper d))))))).
+  intros s6 H C. cbv zeta in H.
+  destruct (try_words _ _ d) as [c|] eqn:E.
+  - injection H as <-. eapply try_words_allb; [reflexivity | | exact E]. apply firstn_Forall, allb_words, C.
+  - destruct (words (upper d)) as [|w t] eqn:W; injection H as <-; [reflexivity|].
+    pose proof (allb_words not_lower (upper d) (upper_not_lower d)) as F. rewrite W in F. now inversion F.
+Qed.
+Theorem needle_substring d n : suggest_needle d = Some n -> substr n (upper d).
+Proof.
+  intros H. pose proof (needle_not_lower d n H) as L.
+  destruct (needle_fixed_ok d) as [n' [E C]]. rewrite H in E. injection E as <-.
+  unfold ci_contains in C. apply substrb_sound in C. now rewrite (upper_fix n L) in C.
+Qed.
+
+(* quoting: for every string, the literal discover writes un-escapes to that string, and the match line parses to contains(it) *)
+Theorem quote_roundtrip n :
+  (forall rest, unesc UN (cmap json_char n ++ String DQ rest) = UOk n rest) /\
+  parse_expr ("contains(" ++ quote_fixed n ++ ")") = POk (ECall "contains" n).
+Proof. split; [intros; apply json_roundtrip|]. unfold quote_fixed. apply parse_expr_contains, json_roundtrip. Qed.
+
+(* the hypotheses of the generic theorems are satisfiable: the ASCII model is an instance *)
+Lemma ascii_name_ok d : nm_ok (odflt (suggest_merchant_name d)) = true.
+Proof. destruct (merchant_name_ok d) as [nm [-> H]]. exact H. Qed.
+Lemma generic_ascii_instance d neg :
+  parse_merchants (rule_text Fixed (odflt (suggest_merchant_name d)) (needle_g upper words clean_fn pattern_take d) (tags_of neg))
+    = Loaded [the_rule (odflt (suggest_merchant_name d)) (needle_g upper words clean_fn pattern_take d)]
+  /\ contains_g upper (needle_g upper words clean_fn pattern_take d) d = true.
+Proof. exact (rule_generic upper words clean_fn (fun d => odflt (suggest_merchant_name d)) pattern_take ascii_first eq_refl ascii_name_ok d neg). Qed.
+
 (* ================================================================== the tree under test has the repaired design (since /repo f2d3c2b) *)
 Lemma source_is_fixed : C19Src.variant_of_source = Fixed.
 Proof. reflexivity. Qed.
